@@ -30,7 +30,7 @@ COMPONENTS = data.COMPONENTS
 
 def plan(tier, seed):
     n = SIZES[tier]["shards"]
-    return [{"part": i, "parts": n, "tier": tier, "_name": f"part-{i}"} for i in range(n)]
+    return [{"part": i, "parts": n, "tier": tier, "_name": f"part-{i}"} for i in range(n)] + [{"kind": "xproc", "tier": tier, "_env": {"PYTHONHASHSEED": "12"}, "_name": "xproc"}]
 
 
 def build_pool(S, rng, n):
@@ -70,6 +70,15 @@ def build_pool(S, rng, n):
         pool.append(("BIC_unvalidated", S.BIC(t, allow_invalid=True)))
         pool.append(("BBAN", S.BBAN("DE", t)))
         pool.append(("str", R.normalise(t)))
+    # unvalidated objects whose text carries compatibility / spacing characters: copies must not re-normalise
+    base = "DE89370400440532013000"
+    for j, ch in enumerate(gen.compat_chars(90)):
+        if j % 3 == 0:
+            pool.append(("IBAN_unvalidated", S.IBAN(base[:-1] + ch, allow_invalid=True)))
+        elif j % 3 == 1:
+            pool.append(("BIC_unvalidated", S.BIC("GENODEM1GL" + ch, allow_invalid=True)))
+        else:
+            pool.append(("BBAN", S.BBAN("DE", ch + base[4:])))
     pool.append(("BBAN", S.BBAN("", "")))
     pool.append(("BBAN", S.BBAN("XX", "123")))
     return pool
@@ -90,9 +99,67 @@ def state(o):
     return d
 
 
+WRITER = r"""
+import pickle, sys
+from vf import env, judge
+from vf.props import c16
+S = judge.lib()
+pool = c16.build_pool(S, env.rng("C16", "pool"), 60)
+objs = [o for l, o in pool if l != "str"]
+for o in objs:
+    hash(o)                      # objects that have been used as keys before being pickled
+d = {o: i for i, o in enumerate(objs)}
+with open(sys.argv[1], "wb") as fp:
+    pickle.dump({"objs": objs, "dict": d, "strs": [str(o) for o in objs], "states": [c16.state(o) for o in objs]}, fp, protocol=int(sys.argv[2]))
+"""
+
+
+def run_xproc(shard, mon, S):
+    """Objects hashed and pickled in a process with one string-hash seed, unpickled here under another one."""
+    import os  # noqa: PLC0415
+    import subprocess  # noqa: PLC0415
+    import tempfile  # noqa: PLC0415
+
+    for proto in (2, pickle.HIGHEST_PROTOCOL):
+        fd, path = tempfile.mkstemp(prefix="vf-c16-", suffix=".pkl")
+        os.close(fd)
+        try:
+            e = dict(os.environ, PYTHONHASHSEED="4711", PYTHONPATH=env.VERIF, PYTHONDONTWRITEBYTECODE="1")
+            p = subprocess.run([env.PY, "-c", WRITER, path, str(proto)], env=e, capture_output=True, text=True, timeout=300)
+            if p.returncode != 0:
+                mon.viol("pickle_raised:writer_process", {"protocol": proto}, "pickle written", p.stderr[-300:])
+                continue
+            with open(path, "rb") as fp:
+                o = observe(pickle.load, fp)
+        finally:
+            os.unlink(path)
+        if not o.ok:
+            mon.viol("pickle_raised:reader_process", {"protocol": proto}, "objects", o.brief())
+            continue
+        doc = o.value
+        for obj, s, st in zip(doc["objs"], doc["strs"], doc["states"]):
+            mon.ev()
+            mon.distinct(("xproc", proto, s, type(obj).__name__))
+            w = {"object": [type(obj).__name__, esc(s)], "protocol": proto, "writer_hashseed": 4711, "reader_hashseed": os.environ.get("PYTHONHASHSEED")}
+            if hash(obj) != hash(str(obj)) or str(obj) != s:
+                mon.viol("hash_differs_from_str:after_cross_process_pickle", w, hash(str(obj)), hash(obj))
+            if not (obj in {s} and s in {obj}):
+                mon.viol("dict_key_not_interchangeable:after_cross_process_pickle", w, "found", "not found")
+            if state(obj) != st:
+                mon.viol("pickle_not_equal:cross_process", w, st, state(obj))
+        found = sum(1 for s in doc["strs"] if s in doc["dict"])
+        if found != len(doc["strs"]):
+            mon.viol("unpickled_dict_cannot_be_queried_by_string", {"protocol": proto}, len(doc["strs"]), found)
+        mon.tally("cross_process_pickles")
+    mon.sample({"cross_process": "writer PYTHONHASHSEED=4711, reader " + str(os.environ.get("PYTHONHASHSEED"))})
+
+
 def run_shard(shard, out_base):
     mon = Mon("C16")
     S = judge.lib()
+    if shard.get("kind") == "xproc":
+        run_xproc(shard, mon, S)
+        return mon.result(out_base)
     rng = env.rng("C16", "pool")  # same pool in every shard; pairs are partitioned
     pool = build_pool(S, rng, SIZES[shard["tier"]]["pool"])
     part, parts = shard["part"], shard["parts"]
